@@ -1,4 +1,298 @@
 package rules
 
-// placeholder until the zone engine lands
-func c03Index(e *Env) {}
+import (
+	"fmt"
+	"go/token"
+	"go/types"
+	"sort"
+	"strings"
+	"sync"
+
+	"golang.org/x/tools/go/ssa"
+
+	"hzcheck/core"
+	"hzcheck/zone"
+)
+
+// peer-input surface: packages whose code touches bytes received from a peer or strings
+// handed to the public parsers.
+var surfacePkgs = []string{
+	"pkg/protocol", "pkg/protocol/http1", "pkg/protocol/http1/req", "pkg/protocol/http1/resp", "pkg/protocol/http1/ext",
+	"pkg/common/utils", "internal/bytesconv", "pkg/app", "pkg/route", "pkg/route/param",
+}
+
+// functions of the surface packages that never see peer input
+var surfaceExcluded = map[string]string{
+	"pkg/route.router.insert":      "registration-time code: its input is the application's route pattern, validated by checkPathValid and panicking by contract on a bad pattern; never reached with peer input",
+	"pkg/route.router.addRoute":    "registration-time code (see router.insert)",
+	"pkg/route.newNode":            "registration-time code (see router.insert)",
+	"pkg/route.checkPathValid":     "registration-time validation of the application's route pattern",
+	"pkg/route.Engine.addRoute":    "registration-time code",
+	"pkg/protocol/http1.HostClient.nextAddr": "client configuration: splits the application-provided Addr list, not peer input",
+}
+
+// reviewed exceptions for obligations the zone analysis cannot discharge
+var indexExceptions = map[string]string{
+	"pkg/protocol.Request.FormFile:index[0]#1": "mime/multipart.Form.File only holds non-empty slices (ReadForm appends a header before storing the key), and the nil test above covers the missing key",
+	"pkg/route.node.findCaseInsensitivePath:index[0]#2": "tree invariant label == prefix[0] (newNode): under `n.children[i].label == '/'` the disjunct `n.prefix == \"*\"` is false, so the short-circuit never evaluates children[0]",
+	"pkg/route.node.findCaseInsensitivePath:index[0]#3": "path is non-empty here: the only external caller passes utils.CleanPath(…) (never empty), recursive calls pass the same non-empty path, and the branch that shortens path returns when the remainder is empty",
+}
+
+type zoneCtx struct {
+	prog *zone.Program
+	fns  []*ssa.Function
+	an   map[*ssa.Function]*zone.Analyzer
+	name map[*ssa.Function]string
+	// static call sites and non-call uses of module functions
+	calls   map[*ssa.Function][]*ssa.Call
+	escapes map[*ssa.Function]bool
+}
+
+var (
+	zoneMu    sync.Mutex
+	zoneCache = map[*core.World]*zoneCtx{}
+)
+
+func allSSAFuncs(w *core.World) []*ssa.Function {
+	var out []*ssa.Function
+	var add func(f *ssa.Function)
+	add = func(f *ssa.Function) {
+		if f == nil || f.Blocks == nil {
+			return
+		}
+		out = append(out, f)
+		for _, an := range f.AnonFuncs {
+			add(an)
+		}
+	}
+	for _, fi := range w.AllDecls() {
+		if fi.Decl.Body == nil || w.IsTestFile(fi.Decl.Pos()) {
+			continue
+		}
+		add(w.SSAFunc(fi))
+	}
+	// package initialisers (constant-initialised globals)
+	for _, p := range w.Pkgs {
+		if sp := w.SSAPkgs[p.Types]; sp != nil {
+			add(sp.Func("init"))
+		}
+	}
+	return out
+}
+
+func ssaFuncName(w *core.World, fn *ssa.Function) string {
+	if fn.Parent() != nil {
+		idx := 0
+		for i, a := range fn.Parent().AnonFuncs {
+			if a == fn {
+				idx = i + 1
+			}
+		}
+		return fmt.Sprintf("%s$%d", ssaFuncName(w, fn.Parent()), idx)
+	}
+	if f, ok := fn.Object().(*types.Func); ok {
+		return w.FuncName(f)
+	}
+	return fn.String()
+}
+
+func getZone(w *core.World) *zoneCtx {
+	zoneMu.Lock()
+	defer zoneMu.Unlock()
+	if z, ok := zoneCache[w]; ok {
+		return z
+	}
+	w.BuildSSA()
+	fns := allSSAFuncs(w)
+	inMod := func(f *ssa.Function) bool {
+		p := f.Pkg
+		if p == nil && f.Parent() != nil {
+			p = f.Parent().Pkg
+		}
+		return p != nil && w.InModule(p.Pkg)
+	}
+	z := &zoneCtx{prog: zone.NewProgram(w.Prog, fns, inMod), fns: fns, an: map[*ssa.Function]*zone.Analyzer{}, name: map[*ssa.Function]string{}}
+	z.calls, z.escapes = map[*ssa.Function][]*ssa.Call{}, map[*ssa.Function]bool{}
+	for _, f := range fns {
+		z.name[f] = ssaFuncName(w, f)
+		for _, b := range f.Blocks {
+			for _, ins := range b.Instrs {
+				if c, ok := ins.(*ssa.Call); ok {
+					if callee := c.Call.StaticCallee(); callee != nil {
+						z.calls[callee] = append(z.calls[callee], c)
+					}
+				}
+				for _, op := range ins.Operands(nil) {
+					if fv, ok := (*op).(*ssa.Function); ok {
+						if ci, isCall := ins.(ssa.CallInstruction); isCall && ci.Common().Value == fv {
+							if _, plain := ins.(*ssa.Call); plain {
+								continue
+							}
+						}
+						z.escapes[fv] = true // go/defer/function value
+					}
+				}
+			}
+		}
+	}
+	zoneCache[w] = z
+	return z
+}
+
+func (z *zoneCtx) analyze(fn *ssa.Function) *zone.Analyzer {
+	if a, ok := z.an[fn]; ok {
+		return a
+	}
+	a := z.prog.Analyze(fn, zone.Options{Index: true})
+	z.an[fn] = a
+	return a
+}
+
+func fnPkgRel(w *core.World, fn *ssa.Function) string {
+	for f := fn; f != nil; f = f.Parent() {
+		if f.Pkg != nil {
+			return w.RelPkg(f.Pkg.Pkg)
+		}
+	}
+	return ""
+}
+
+func isExportedAPI(fn *ssa.Function) bool {
+	if fn.Parent() != nil {
+		return false
+	}
+	f, ok := fn.Object().(*types.Func)
+	if !ok || !f.Exported() {
+		return false
+	}
+	if rn := recvNamed(f); rn != nil && !rn.Obj().Exported() {
+		return false
+	}
+	return true
+}
+
+// C03.index — constant-offset index and slice expressions in the peer-input surface are
+// within bounds on every path.
+func c03Index(e *Env) {
+	const rule = "C03.index"
+	w, r := e.W, e.R
+	r.Explainf("C03.index: zone (difference-bound) abstract interpretation over go/ssa of every non-test function of the peer-input surface packages: each index expression with a constant index and each slice expression with a positive constant low bound (and constant high bound on strings) must have the needed length established at that point (branch refinement, len/IndexByte/HasPrefix/Peek/ParseUint axioms, callee return summaries, access-path memory for struct fields). If the operand is a parameter, the requirement becomes a precondition checked at every static call site (depth ≤ 3); exported functions must not need one. Unreached/unconverged obligations count as undecided. Non-constant indices are not decided.")
+	z := getZone(w)
+	surf := map[string]bool{}
+	for _, p := range surfacePkgs {
+		surf[p] = true
+		if w.Pkg(p) == nil {
+			r.Anchor(rule, "surface package "+p)
+		}
+	}
+	for _, ax := range z.prog.Axioms {
+		r.Trust("zone axiom: " + ax)
+	}
+	nFn, nObl, nProven := 0, 0, 0
+	type pre struct {
+		fn  *ssa.Function
+		par int
+		n   int64
+	}
+	var checkPre func(p pre, depth int, chain string) (ok bool, why string)
+	checkPre = func(p pre, depth int, chain string) (bool, string) {
+		if isExportedAPI(p.fn) {
+			return false, fmt.Sprintf("%s is exported and indexes its parameter %q without establishing len ≥ %d: any caller (including the wire-facing code that reaches it via %s) can make it panic", z.name[p.fn], p.fn.Params[p.par].Name(), p.n, chain)
+		}
+		if z.escapes[p.fn] {
+			return false, z.name[p.fn] + " is also used as a function value / go / defer target; call sites undecided"
+		}
+		if len(z.calls[p.fn]) == 0 {
+			return false, "no static call site found for " + z.name[p.fn] + "; undecided"
+		}
+		for _, call := range z.calls[p.fn] {
+			caller := call.Parent()
+			an := z.analyze(caller)
+			d := an.StateBefore(call)
+			if d == nil {
+				continue // unreachable call site
+			}
+			arg := call.Call.Args[p.par]
+			if zone.Tub(d, zone.ConstTerm(p.n), an.LenTerm(arg)) <= 0 {
+				continue
+			}
+			// argument is the caller's own parameter: propagate
+			propagated := false
+			for i, cp := range caller.Params {
+				if cp == arg && depth < 3 {
+					ok, why := checkPre(pre{caller, i, p.n}, depth+1, z.name[caller]+" → "+chain)
+					if !ok {
+						return false, why
+					}
+					propagated = true
+				}
+			}
+			if !propagated {
+				return false, fmt.Sprintf("call site %s in %s passes an argument whose length ≥ %d is not established (chain %s)", w.Pos(call.Pos()), z.name[caller], p.n, chain)
+			}
+		}
+		return true, ""
+	}
+	for _, fn := range z.fns {
+		rel := fnPkgRel(w, fn)
+		if !surf[rel] || fn.Name() == "init" {
+			continue
+		}
+		name := z.name[fn]
+		if reason, ok := surfaceExcluded[strings.SplitN(name, "$", 2)[0]]; ok {
+			r.Except(rule, name+":excluded", w.Pos(fn.Pos()), "function is part of the peer-input surface", reason)
+			continue
+		}
+		nFn++
+		an := z.analyze(fn)
+		count := map[string]int{}
+		for _, o := range an.Obligs {
+			if o.Kind == "custom" {
+				continue
+			}
+			nObl++
+			tag := o.Kind
+			if i := strings.Index(o.Desc, ":"); i > 0 {
+				// constant part of the description ("[0]", "[2:…]") without SSA register names
+				rest := o.Desc[strings.Index(o.Desc, "["):i]
+				tag += rest
+			}
+			count[tag]++
+			key := fmt.Sprintf("%s:%s#%d", name, tag, count[tag])
+			pos := w.Pos(o.Instr.Pos())
+			if o.Instr.Pos() == token.NoPos {
+				pos = w.Pos(fn.Pos())
+			}
+			desc := "constant-offset access is within bounds: " + o.Desc
+			switch {
+			case o.Proven:
+				nProven++
+				r.OK(rule, key, pos, desc)
+			case o.NeedParam >= 0 && !o.Unreached:
+				if ok, why := checkPre(pre{fn, o.NeedParam, o.NeedLen}, 1, name); ok {
+					nProven++
+					r.OKd(rule, key, pos, desc, "precondition discharged at every call site")
+				} else if reason, ok := indexExceptions[key]; ok {
+					r.Except(rule, key, pos, desc, reason)
+				} else {
+					r.Fail(rule, key, pos, desc, why)
+				}
+			default:
+				if reason, ok := indexExceptions[key]; ok {
+					r.Except(rule, key, pos, desc, reason)
+				} else if o.Unreached {
+					r.Fail(rule, key, pos, desc, "the obligation lies in a block the analysis did not reach or did not converge on; undecided")
+				} else {
+					r.Fail(rule, key, pos, desc, "the length needed here is not established on every path reaching this point: a short or empty peer-controlled value panics with index out of range")
+				}
+			}
+		}
+	}
+	r.Unit("%s: %d functions of %d surface packages analysed, %d constant-offset obligations, %d proven", rule, nFn, len(surfacePkgs), nObl, nProven)
+	r.Floor(rule, nObl, 60, "constant-offset index/slice obligations")
+	var ks []string
+	for k := range indexExceptions {
+		ks = append(ks, k)
+	}
+	sort.Strings(ks)
+}
